@@ -24,6 +24,10 @@ def run(tier, only=None):
     for text in ("L.set_index('a')", "L.set_index('a').b.sum()", "L.sort_values('a')", "L.set_index('c')[['a']]", "L.sort_values('c').a", "L.set_index('a', npartitions=2)",
                  "L.set_index('a').reset_index()", "L.repartition(partition_size='1kB')" ):
         progs.append(Program(text, [Src("L", 6, K, 3)], ordered=False, family="F16", note="data-dependent-planning"))
+    # sources built from frames whose index is not sorted (from_pandas sorts; what is shipped must be what was named)
+    for text in ("L", "L + 1", "L[L.a > 1].b", "L.a.sum()", "L.set_index('a', divisions=[-100, 0, 100])", "L.merge(L, on='a')"):
+        progs.append(Program(text, [Src("L", 6, K, 3, index=(4, 0, 5, 2, 1, 3))], ordered=False, family="F16", note="unsorted-source"))
+        progs.append(Program(text, [Src("L", 6, K, 2, index=(4, 0, 5, 2, 1, 3), sort=False)], ordered=False, family="F16", note="unsorted-source-nosort"))
     pr, pinfo = pfam.run(progs, prun.check_reconstruct, only)
     results += pr
     info.update({k: v for k, v in pinfo.items() if k not in ("samples",)})
